@@ -9,7 +9,10 @@ from .. import core, ctx as _ctx, histmon as HM, model as _model, driver, addrge
 
 PROP = "C19"
 POOL = ["user@почта.рф".encode(), b"user@mail.ru", "иван@иванов.рф".encode(), b"u@[1.2.3.4]", "x@在线.在线".encode(),
-        b"a..b@c.com", b"u@a.zzzz", "u@☕.de".encode(), b"u@example.com", "ü@bücher.de".encode()]
+        b"a..b@c.com", b"u@a.zzzz", "u@☕.de".encode(), b"u@example.com", "ü@bücher.de".encode(),
+        b"u@" + b".".join([b"a" * 63, b"b" * 63, b"c" * 63, b"d" * 61]),            # 253 octets
+        b"u@" + b".".join([b"a" * 63, b"b" * 63, b"c" * 63, b"d" * 61]) + b".",     # 254 with root dot
+        b"u@xn--80a1acny.xn--p1ai", b"u@localhost", b"u@mail.ru.", "u@почта.рф.".encode(), b"u@" + b"a." * 126 + b"b"]
 
 
 def idn2_codes():
